@@ -44,6 +44,7 @@ ASSUMPTIONS = ['coordinates are exact integers in the geometry model; float roun
                'constitutionally distinct substituents, not proved']
 
 _state = {}
+KNOWN_CT_MAP = 'C12/written-configuration-differs/ring-closure-double-bond-in-conjugated-system'
 
 
 def generate(ctx):
@@ -389,6 +390,9 @@ def correspond(ctx):
     ctx.cov['programs'] += 2   # _smiles (canonical), __format__('r')
     stream_ring_double_bonds(ctx)
     stream_nonstereogenic(ctx)
+    stream_wedges(ctx)
+    stream_wedge_model(ctx)
+    ctx.cov['programs'] += 3   # SDFRead/add_wedge, SDFWrite/_wedge_map, calculate_cis_trans_from_2d
     ctx.cov['programs'] += 3   # __chiral_centers via chiral_cis_trans, fix_stereo, stereogenic_* properties
     ctx.exhaustive = not ctx.quick
 
@@ -429,6 +433,8 @@ def search(ctx):
     while ctx.elapsed() - t0 < budget and n < (150 if ctx.quick else 1500) and len(ctx.failures) - found < 20:
         n += 1
         spec = random_spec(rng)
+        if not spec.centres and not spec.dbonds:
+            continue
         sps = list(spellings(spec, rng, 6))
         other = flip_some(rng, spec)
         msps = list(spellings(other, rng, 3))
@@ -487,6 +493,28 @@ def probe(inp):
         eq = a == b
         return eq != inp['same'], (f"{inp['a']!r} -> {str(a)!r}; {inp['b']!r} -> {str(b)!r}; equal={eq}, "
                                    f"expected {'equal' if inp['same'] else 'different'} (RDKit: {rd_canon(inp['a'])!r} vs {rd_canon(inp['b'])!r})")
+    if kind == 'wedge-roundtrip':
+        atoms, nbrs = TETRA_TEMPLATES[inp['template']]
+        mol = build(dict(atoms), [(1, x, 1) for x in inp['insertion']] + [(9, 10, 1)])
+        for k, (x, y) in inp['coords'].items():
+            mol._atoms[int(k)].xy = (x, y)
+        mol._atoms[1]._stereo = inp['label']
+        mol.flush_cache()
+        wm = [w for w in mol._wedge_map if w[0] == 1]
+        out = []
+        for n_, m_, v in wm:
+            if not v:
+                continue
+            mol._atoms[1]._stereo = None
+            mol.flush_cache()
+            mol.add_wedge(1, m_, v, clean_cache=False)
+            out.append((m_, v, mol._atoms[1].stereo))
+        bad = [o for o in out if o[2] is not inp['label']]
+        return bool(bad), f"label {inp['label']} drawn as wedges {[(m_, v) for m_, v, _ in out]}, read back as {[r for *_x, r in out]}"
+    if kind == 'wedge-explicit-h':
+        return wedge_case_explicit_h(inp['smiles'])
+    if kind == 'wedge':
+        return wedge_case(inp['smiles'])
     if kind == 'write-judge':
         import random as _r
         from chython import smiles
@@ -501,7 +529,7 @@ def probe(inp):
                 lab_db.add(tuple(sorted(mol._stereo_cis_trans_terminals[n], key=str)))
         tet = {c: v for c, v in tet.items() if c in labelled}
         db = {k: v for k, v in db.items() if k in lab_db}
-        r_in = rd_canon(smi)
+        r_in = None if _re.search(r'\[\d*(?!C@)[A-Za-z][a-z]?@', smi) else rd_canon(smi)
         for fmt, out, order in written_outputs(mol, _r.Random(0), 300):
             d = judge_written(mol, out, order, tet, db)
             if d:
@@ -1102,7 +1130,7 @@ class MiniMol:
     dirs[(i, j)]: +1 if the bond i->j is written as going 'up' from i ('/' when written i then j), -1 for 'down'."""
 
     def __init__(self):
-        self.atoms, self.nbrs, self.dirs, self.orders = [], [], {}, {}
+        self.atoms, self.nbrs, self.dirs, self.orders, self.ring_bonds = [], [], {}, {}, set()
 
 
 def mini_read(smi):
@@ -1145,6 +1173,7 @@ def mini_read(smi):
                         m.dirs[(y, x)] = -d
                 o = (pend if pend not in (None, '/', '\\') else None) or (sym if sym not in (None, '/', '\\') else None)
                 m.orders[frozenset((a, prev))] = o or '-'
+                m.ring_bonds.add(frozenset((a, prev)))
             else:
                 rings[k] = (prev, len(m.nbrs[prev]), pend)
                 m.nbrs[prev].append(None)
@@ -1233,6 +1262,7 @@ def judge_written(mol, out, order, ref_tet, ref_db):
     for c in tet:
         if c not in ref_tet:
             diffs.append(f'centre {c}: mark written but none in the reference')
+    pos = {a: i for i, a in enumerate(ident)}
     for key, ref in ref_db.items():
         if key not in db:
             diffs.append(f'double bond {key}: no marks written')
@@ -1240,7 +1270,11 @@ def judge_written(mol, out, order, ref_tet, ref_db):
         (x, y), cis = next(iter(ref.items()))
         (p, q), cis2 = next(iter(db[key].items()))
         if (cis2 == ((p == x) == (q == y))) != cis:
-            diffs.append(f'double bond {key}: written {db[key]} vs reference {ref}')
+            a, b = pos[key[0]], pos[key[1]]
+            conj = any(m.orders.get(frozenset((z, w))) == '=' for t in (a, b) for z in m.nbrs[t] if z not in (a, b)
+                       for w in m.nbrs[z] if w not in (a, b))
+            cls = ' [ring-closure double bond in a conjugated system]' if frozenset((a, b)) in m.ring_bonds and conj else ''
+            diffs.append(f'double bond {key}: written {db[key]} vs reference {ref}{cls}')
     for key in db:
         if key not in ref_db:
             diffs.append(f'double bond {key}: marks written but none in the reference')
@@ -1321,6 +1355,9 @@ def judge_input(ctx, smi, ref_tet, ref_db, rng, k, tag, use_rdkit=True, kstream=
         return 0
     labelled = {n for n, a in mol.atoms() if a.stereo is not None}
     bad = 0
+    if use_rdkit and _re.search(r'\[\d*(?!C@)[A-Za-z][a-z]?@', smi):
+        use_rdkit = False     # chirality marks on non-carbon atoms: outside chython's stereo model (carbon tetrahedra only)
+        ctx.dist('rdkit-skipped:non-carbon-centre')
     r_in = rd_canon(smi) if use_rdkit else None
     for fmt, out, order in written_outputs(mol, rng, k):
         ctx.count(('written', out))
@@ -1345,7 +1382,11 @@ def judge_input(ctx, smi, ref_tet, ref_db, rng, k, tag, use_rdkit=True, kstream=
         except ValueError as e:
             ctx.notes.append(f'mini reader could not read chython output {out!r}: {e}')
             continue
-        if diffs:
+        if diffs and all('[ring-closure double bond in a conjugated system]' in d for d in diffs):
+            bad += 1
+            ctx.fail(KNOWN_CT_MAP, f'{smi!r} written as {out!r} ({"random order" if fmt else "canonical"}): {diffs[:2]}',
+                     {'kind': 'write-judge', 'smiles': smi})
+        elif diffs:
             bad += 1
             ctx.fail(f'C12/written-configuration-differs/{tag}',
                      f'{smi!r} written as {out!r} ({"random order" if fmt else "canonical"}): {diffs[:2]}',
@@ -1391,6 +1432,9 @@ def stream_written(ctx):
     sample = cs if not ctx.quick else rng.sample(cs, 150)
     from chython import smiles
     for smi in sample:
+        if not in_domain(smi):
+            ctx.dist('domain-filter:equivalent-substituents')
+            continue
         try:
             mi = mini_read(smi)
             mol = smiles(smi)
@@ -1566,3 +1610,230 @@ def fix_stereo_case(smi, edit, kept):
     m.fix_stereo()
     has = any(a.stereo is not None for _, a in m.atoms()) or any(b.stereo is not None for *_, b in m.bonds())
     return m, has
+
+
+# ---- wedge bonds (MDL mol block) --------------------------------------------------------------------
+
+def rd_block(smi):
+    from rdkit import Chem
+    from rdkit.Chem import AllChem
+    m = Chem.MolFromSmiles(smi)
+    if m is None:
+        return None, None
+    AllChem.Compute2DCoords(m)
+    return Chem.MolToMolBlock(m), Chem.MolToSmiles(m)
+
+
+def chy_from_block(block):
+    from io import StringIO
+    from chython import SDFRead
+    with SDFRead(StringIO(block + '$$$$\n'), calc_cis_trans=True) as f:
+        return next(iter(f))
+
+
+def chy_to_block(mol):
+    from io import StringIO
+    from chython import SDFWrite
+    s = StringIO()
+    with SDFWrite(s) as f:
+        f.write(mol)
+    return s.getvalue().split('$$$$')[0]
+
+
+def rd_canon_block(block):
+    from rdkit import Chem
+    m = Chem.MolFromMolBlock(block)
+    if m is None:
+        return None
+    for a in m.GetAtoms():
+        a.SetAtomMapNum(0)
+    return Chem.MolToSmiles(m)
+
+
+def in_domain(smi):
+    """Domain filter of the property text ("centres have constitutionally distinct substituents"), by an oracle that is
+    independent of chython: RDKit constitutional ranks (no tie breaking, chirality ignored). False when a marked
+    tetrahedral atom has two neighbours of equal rank or a double bond end carries two substituents of equal rank
+    (pseudo-asymmetric ring centres such as 1,4-disubstituted cyclohexanes: inverting both marks gives the same molecule,
+    and RDKit's canonical strings are not unique there)."""
+    from rdkit import Chem
+    m = Chem.MolFromSmiles(smi)
+    if m is None:
+        return False
+    ranks = list(Chem.CanonicalRankAtoms(m, breakTies=False, includeChirality=False))
+    for a in m.GetAtoms():
+        if a.GetChiralTag() != Chem.ChiralType.CHI_UNSPECIFIED:
+            rs = [ranks[n.GetIdx()] for n in a.GetNeighbors()]
+            if len(set(rs)) != len(rs):
+                return False
+    for b in m.GetBonds():
+        if b.GetBondType() == Chem.BondType.DOUBLE and b.GetStereo() != Chem.BondStereo.STEREONONE:
+            for x, y in ((b.GetBeginAtom(), b.GetEndAtom()), (b.GetEndAtom(), b.GetBeginAtom())):
+                rs = [ranks[n.GetIdx()] for n in x.GetNeighbors() if n.GetIdx() != y.GetIdx()]
+                if len(set(rs)) != len(rs):
+                    return False
+    return True
+
+
+def wedge_case(smi):
+    """(fails, what): wedge bonds and SMILES marks must denote the same arrangement, in both directions, as RDKit sees it.
+    read:  RDKit draws `smi` (2-D coordinates + wedges); chython reads the mol block; RDKit's own reading of that block
+           and RDKit's reading of chython's SMILES of it must coincide.
+    write: chython writes the molecule it read as a mol block (its own wedge choice, `_wedge_map`); RDKit's reading of
+           that block and of chython's SMILES must coincide.
+    Everything is compared as RDKit canonical isomeric SMILES, so explicit-H / aromaticity spelling does not matter."""
+    block, can = rd_block(smi)
+    if block is None:
+        return False, 'RDKit cannot read the input'
+    if not in_domain(smi):
+        return False, 'skipped: a marked centre has constitutionally equivalent substituents (outside the property domain)'
+    if _re.search(r'\[\d*(?!C@)[A-Za-z][a-z]?@', smi):
+        return False, 'skipped: chirality mark on a non-carbon atom (outside chython\'s stereo model)'
+    if _re.search(r'^\s*\d+\s+\d+\s+2\s+3\s', block, _re.M):
+        return False, 'skipped: the drawing contains an either (unspecified) double bond'
+    expect = rd_canon_block(block)
+    m = chy_from_block(block)
+    got = rd_canon(str(m).split()[0])
+    if got != expect:
+        return True, (f'{smi!r}: the RDKit drawing (wedges, 2-D) is read by RDKit as {expect!r} but by chython as {str(m)!r} '
+                      f'(= {got!r})')
+    b2 = chy_to_block(m)
+    back = rd_canon_block(b2)
+    if back != got:
+        return True, f'{smi!r}: chython holds {str(m)!r} (= {got!r}) but writes wedges that RDKit reads as {back!r}'
+    return False, f'{smi!r}: wedge read and wedge write agree with RDKit ({got!r})'
+
+
+def wedge_case_explicit_h(smi):
+    """as wedge_case, but every stereocentre carries its hydrogen explicitly (drawn in the plane by RDKit)"""
+    from io import StringIO
+    from chython import SDFRead
+    from rdkit import Chem
+    from rdkit.Chem import AllChem
+    rm = Chem.MolFromSmiles(smi)
+    if rm is None or not in_domain(smi) or _re.search(r'\[\d*(?!C@)[A-Za-z][a-z]?@', smi):
+        return False, 'skipped'
+    rm = Chem.AddHs(rm, onlyOnAtoms=[a.GetIdx() for a in rm.GetAtoms() if a.GetChiralTag() != Chem.ChiralType.CHI_UNSPECIFIED])
+    AllChem.Compute2DCoords(rm)
+    block = Chem.MolToMolBlock(rm)
+    if _re.search(r'^\s*\d+\s+\d+\s+2\s+3\s', block, _re.M):
+        return False, 'skipped: either double bond'
+    can = Chem.MolToSmiles(Chem.RemoveHs(rm))
+    with SDFRead(StringIO(block + '$$$$\n'), calc_cis_trans=True) as f:
+        m = next(iter(f))
+    got = rd_canon(str(m).split()[0])
+    if got != can:
+        return True, f'{smi!r} drawn with explicit H on the centres: RDKit reads {can!r}, chython reads {str(m)!r} (= {got!r})'
+    r2 = Chem.MolFromMolBlock(chy_to_block(m), removeHs=False)
+    if r2 is None:
+        return True, f'{smi!r}: RDKit cannot read the mol block chython wrote'
+    for a in r2.GetAtoms():
+        a.SetAtomMapNum(0)
+    back = Chem.MolToSmiles(Chem.RemoveHs(r2))
+    if back != can:
+        return True, f'{smi!r} with explicit H on the centres: chython holds {got!r} but writes wedges that RDKit reads as {back!r}'
+    return False, f'{smi!r}: explicit-H wedge read and write agree with RDKit'
+
+
+def stream_wedges(ctx):
+    """R (validated): wedge bonds written by RDKit are read as the configuration of the SMILES; wedge bonds written by
+    chython are read by RDKit as that configuration. Coordinates are RDKit's floats (outside the Lean geometry model)."""
+    from .. import molgen
+    rng = ctx.rng
+    cases = []
+    for spec in tetra_specs() + cage_specs() + dbond_specs():
+        for sp in (spec, spec.mirror()):
+            cases += [(spec.name, s) for s, *_ in spellings(sp, rng, 2 if ctx.quick else 6)]
+    for _ in range(40 if ctx.quick else 600):
+        spec = random_spec(rng)
+        if spec.centres or spec.dbonds:
+            cases.append(('random', next(iter(spellings(spec, rng, 1)))[0]))
+    cs = [s for s in molgen.corpus_smiles() if '@' in s]
+    cases += [('corpus', s) for s in (rng.sample(cs, 60) if ctx.quick else cs)]
+    for tag, smi in cases:
+        ctx.count(('wedge', smi))
+        try:
+            fails, what = wedge_case(smi)
+        except Exception as e:
+            ctx.dist(f'wedge-skip:{type(e).__name__}')
+            continue
+        ctx.dist('wedge:' + ('FAIL' if fails else 'ok' if 'agree' in what else 'skipped'))
+        if fails:
+            ctx.fail(f'C12/wedge-configuration-differs/{tag}', what, {'kind': 'wedge', 'smiles': smi})
+        if '@' in smi:
+            ctx.count(('wedge-explicit-h', smi))
+            try:
+                fails, what = wedge_case_explicit_h(smi)
+            except Exception as e:
+                ctx.dist(f'wedge-explicit-h-skip:{type(e).__name__}')
+                continue
+            ctx.dist('wedge-explicit-h:' + ('FAIL' if fails else 'ok' if 'agree' in what else 'skipped'))
+            if fails:
+                ctx.fail(f'C12/wedge-configuration-differs/explicit-hydrogen/{tag}', what, {'kind': 'wedge-explicit-h', 'smiles': smi})
+
+
+# ---- K: add_wedge / __wedge_sign on template centres with integer coordinates ------------------------
+
+def stream_wedge_model(ctx):
+    """real `add_wedge` (tetrahedron branch) and `_wedge_map` (through `__wedge_sign`) vs the Lean model, integer coordinates;
+    plus the property-level round trip on the real code: the wedge chython writes for a label, fed back to add_wedge on
+    the unlabelled molecule, restores the label."""
+    aw = Stream(ctx, 'add_wedge_tetrahedron')
+    ws = Stream(ctx, 'wedge_map_sign')
+    rng = ctx.rng
+    reps = 40 if ctx.quick else 600
+    for name, (atoms, nbrs) in TETRA_TEMPLATES.items():
+        for rep in range(reps):
+            ins = rng.sample(nbrs, len(nbrs))
+            new = dict(zip(atoms, rng.sample(range(1, 40), len(atoms))))
+            mol = build({new[n]: s for n, s in atoms.items()}, [(new[1], new[x], 1) for x in ins] + [(new[9], new[10], 1)])
+            c = new[1]
+            lim = rng.choice([1, 2, 5, 50])
+            for n, a in mol._atoms.items():
+                a.xy = (rng.randint(-lim, lim), rng.randint(-lim, lim))
+            th = list(mol.stereogenic_tetrahedrons[c])
+            hs = h_atoms(mol)
+            exH = [x for x in mol._bonds[c] if x not in th]
+            thw = [len(th)] + [v for x in th for v in (x, int(mol._atoms[x].x), int(mol._atoms[x].y))]
+            pn = [int(mol._atoms[c].x), int(mol._atoms[c].y)]
+            hw = [1, int(mol._atoms[exH[0]].x), int(mol._atoms[exH[0]].y)] if exH else [0, 0, 0]
+            for m in list(mol._bonds[c]):
+                for mark in (1, -1):
+                    mol._atoms[c]._stereo = None
+                    mol.flush_cache()
+                    try:
+                        mol.add_wedge(c, m, mark, clean_cache=False)
+                        st = mol._atoms[c].stereo
+                        real = 'ok none' if st is None else f'ok {int(st)}'
+                    except Exception as e:
+                        real = f'err {type(e).__name__}'
+                    meta = {'kind': 'wedge-model', 'template': name}
+                    if mol._atoms[m].atomic_number == 1:
+                        aw.add(' '.join(map(str, ['awh'] + thw + [int(mol._atoms[m].x), int(mol._atoms[m].y), mark])), real, meta)
+                    else:
+                        aw.add(' '.join(map(str, ['aw'] + thw + pn + hw + [m, mark])), real, meta)
+            # _wedge_map for both labels + round trip
+            for s in (True, False):
+                mol._atoms[c]._stereo = s
+                mol.flush_cache()
+                wm = [w for w in mol._wedge_map if w[0] == c]
+                for n_, m_, v in wm:
+                    i = th.index(m_)
+                    order = th[i:] + th[:i]
+                    ws.add(' '.join(map(str, ['ws'] + thw + pn + hw + lst(order) + lst(hs) + [tri(s)])), f'ok {v}',
+                           {'kind': 'wedge-model', 'template': name})
+                    ctx.count(('wedge-roundtrip', name, rep, s))
+                    if v:
+                        mol._atoms[c]._stereo = None
+                        mol.flush_cache()
+                        mol.add_wedge(c, m_, v, clean_cache=False)
+                        if mol._atoms[c].stereo is not s:
+                            coords = {n: (int(a.x), int(a.y)) for n, a in mol._atoms.items()}
+                            ctx.fail('C12/wedge-roundtrip', f'{name}: label {s} is drawn as wedge {c}->{m_} mark {v}; add_wedge of that wedge '
+                                     f'stores {mol._atoms[c].stereo}',
+                                     {'kind': 'wedge-roundtrip', 'template': name, 'insertion': list(ins),
+                                      'coords': {str(k): list(coords[v_]) for k, v_ in new.items()}, 'label': s})
+                        mol._atoms[c]._stereo = s
+            mol._atoms[c]._stereo = None
+    aw.run()
+    ws.run()
